@@ -159,6 +159,26 @@ func runC15(c *Ctx) {
 				for v := 2; v < 256; v++ { // hostile values one at a time
 					addIn([]byte{1, byte(v), 0}, 3)
 				}
+				// one bad byte at every position of longer inputs (word-sized groups and tails), among zeros, ones and mixed bits
+				for _, n := range []int{8, 9, 16, 17, 24, 31} {
+					for p := 0; p < n; p++ {
+						for _, bad := range []byte{2, 0x80, 0xff} {
+							for _, fill := range []int{0, 1, 2} {
+								w := make([]byte, n)
+								for j := range w {
+									switch fill {
+									case 1:
+										w[j] = 1
+									case 2:
+										w[j] = byte((j*7 + p) & 1)
+									}
+								}
+								w[p] = bad
+								addIn(w, n)
+							}
+						}
+					}
+				}
 			} else {
 				addIn(all, 256)
 			}
@@ -201,6 +221,14 @@ func runC15(c *Ctx) {
 				emit(id, o, desc)
 				R.Case(id+"|"+hx(wire), rows > 0)
 				R.Count("codec:" + cd.name)
+				if cd.name == "Bool" && oerr == "" && len(o.lines) > 0 && strings.HasPrefix(o.lines[0], "decode:ok") {
+					for _, bb := range wire[:min(len(wire), rows)] {
+						if bb > 1 {
+							oerr = fmt.Sprintf("DecodeColumn accepted the byte 0x%02x as a Bool", bb)
+							break
+						}
+					}
+				}
 				if oerr != "" {
 					key := "codec-oracle:" + cd.name
 					R.Violate(Violation{Kind: "oracle", Key: key, What: "[" + build + " build] " + oerr, Case: map[string]any{"codec": cd.name, "rows": rows, "wire": truncHex(wire), "prefix": hx(prefix), "reuse": reuse, "build": build, "transcript": o.lines}})
@@ -208,14 +236,59 @@ func runC15(c *Ctx) {
 			}
 		}
 	}
+	// a zero-row decode that follows another read on the same Reader (as the elements of an Array whose arrays are all empty)
+	for _, cd := range c15Codecs {
+		wire := r.Bytes(cd.w * 3)
+		if cd.name == "Bool" {
+			for j := range wire {
+				wire[j] &= 1
+			}
+		}
+		rd := proto.NewReader(bytes.NewReader(wire))
+		first := cd.mk()
+		var o c15Out
+		e1 := first.DecodeColumn(rd, 3)
+		o.add("first:%v rows=%d", e1 != nil, first.Rows())
+		second := cd.mk()
+		var e2 error
+		oerr := ""
+		if p, msg := safely(func() { e2 = second.DecodeColumn(rd, 0) }); p {
+			o.add("zero-rows:panic")
+			oerr = "DecodeColumn(r, 0) after another read on the same reader panicked: " + msg
+		} else {
+			o.add("zero-rows:err=%v rows=%d", e2 != nil, second.Rows())
+			if e2 != nil || second.Rows() != 0 {
+				oerr = fmt.Sprintf("DecodeColumn(r, 0) after another read on the same reader: err=%v rows=%d", e2, second.Rows())
+			}
+		}
+		id := fmt.Sprintf("%s/zero-rows-after-read", cd.name)
+		emit(id, o, "zero-row decode after a 3-row decode on the same reader")
+		R.Case(id, true)
+		if oerr != "" {
+			R.Violate(Violation{Kind: "oracle", Key: "codec-oracle:" + cd.name, What: "[" + build + " build] " + oerr, Case: map[string]any{"codec": cd.name, "build": build, "transcript": o.lines}})
+		}
+	}
 	// composite columns built from C01's generator: encode bytes must agree across builds as well
 	n := 60
 	if c.Thorough {
 		n = 1500
 	}
-	for i := 0; i < n; i++ {
+	directed := []string{"Array(UUID)", "Array(Bool)", "Array(UInt64)", "Array(String)", "Array(Array(UUID))", "Map(String, Array(Bool))", "Array(Nullable(UUID))"}
+	for i := 0; i < n+len(directed); i++ {
 		rows := []int{0, 1, 3, 17}[r.Intn(4)]
-		cols, err := buildCols(r, 1, rows, genOpts{}, func() *TNode { return genType(r) })
+		var cols []blockCol
+		var err error
+		if i >= n {
+			// every array empty: the element column is decoded with zero rows right after the offsets were read
+			t, perr := parseCH(directed[i-n])
+			if perr != nil {
+				continue
+			}
+			rows = 3
+			cols, err = buildCols(r, 1, rows, genOpts{emptyArrays: true}, func() *TNode { return t })
+		} else {
+			cols, err = buildCols(r, 1, rows, genOpts{}, func() *TNode { return genType(r) })
+		}
 		if err != nil {
 			continue
 		}
@@ -226,6 +299,21 @@ func runC15(c *Ctx) {
 		o.add("block:%s err=%v", hx(b.Buf), eerr != nil)
 		if unorderedMaps(cols[0].t, false) {
 			continue
+		}
+		if eerr == nil {
+			// and the block decodes back, in this build, to the same contents
+			if res, targets, terr := freshTargets(cols); terr == nil {
+				var got proto.Block
+				var derr error
+				pn, msg := safely(func() { derr = got.DecodeBlock(proto.NewReader(bytes.NewReader(b.Buf)), 54460, res) })
+				o.add("decode: panic=%v err=%v", pn, derr != nil)
+				if pn || derr != nil {
+					R.Violate(Violation{Kind: "oracle", Key: "codec-oracle:block", What: fmt.Sprintf("[%s build] the block of %s does not decode: panic=%q err=%v", build, cols[0].t.CH, msg, derr), Case: map[string]any{"type": cols[0].t.CH, "rows": rows, "build": build}})
+				} else if e, sz := checkColumn(targets[0], cols[0].cn); e != nil && !sz {
+					o.add("values differ")
+					R.Violate(Violation{Kind: "oracle", Key: "codec-oracle:block", What: fmt.Sprintf("[%s build] decoded values of %s differ: %v", build, cols[0].t.CH, e), Case: map[string]any{"type": cols[0].t.CH, "rows": rows, "build": build}})
+				}
+			}
 		}
 		id := fmt.Sprintf("block/%d/%s", i, cols[0].t.CH)
 		emit(id, o, "block of "+cols[0].t.CH)
